@@ -22,7 +22,7 @@ CLAIMED["C16"] = (
     "byte k = last child covering k, else binary, else fill pattern; error iff a child sticks out / siblings overlap / negative offset) "
     "by modular induction over tree depth: children are abstract images known only through these same contracts (ghost length / bytes / "
     "validity), so depth is unbounded. Width is instantiated for 0..3 children per node (loops unrolled completely per width); wider nodes, "
-    "and BIN/HEX/S-record save/load (bincopy), are bounded checks only. One recorded known finding (empty child inside a sibling). Added (round 3, bounded): nodes with own binary, fill pattern and larger size / alignment in the BIN/HEX/S19 save-load sweep.",
+    "and BIN/HEX/S-record save/load (bincopy), are bounded checks only. One recorded known finding (empty child inside a sibling). Added (round 3, bounded): nodes with own binary, fill pattern and larger size / alignment in the BIN/HEX/S19 save-load sweep. Added (round 5): absolute_address (own offset plus the parent's, non-empty parent), aligned_start / aligned_length (both ends on the boundary, start at or before, end at or behind and less than one alignment away: padding only ever extends the end).",
     "Trusted: A-enc, A-smt; align/align_block/BinaryPattern.get_block through their own verified contracts (C20). 'rand' pattern excluded.",
     "DESIGN.md 7 C16")
 CLAIMED["C11"] = (
@@ -58,7 +58,7 @@ CLAIMED["C18"] = (
     "os.path.exists answers anything; FileLock may time out): no exception escapes (so every file content, hence every truncated prefix, is "
     "tolerated), cached content is used only when it has the expected class and its stored hash equals the hash of the live data, and a cache "
     "file is opened only while its lock is held (ghost permission). Real process interleavings, lock time-outs as liveness and start-up "
-    "latency are outside this family; byte-exact prefixes of the real cache files are a bounded check. Added (round 5): the fingerprint function itself (hash_db_data, real body) over a ghost file system: name, modification time and size of EVERY cached file and of the defaults file(s) enter the digest (1-3 cached files; stat value classes pinned to one bit length) - this exposed and now guards the repaired defect that edited database defaults were answered from a stale cache.",
+    "latency are outside this family; byte-exact prefixes of the real cache files are a bounded check. Added (round 5): the fingerprint function itself (hash_db_data, real body) over a ghost file system: name, modification time and size of EVERY cached file and of the defaults file(s) enter the digest (1-3 cached files; stat value classes pinned to one bit length) - this exposed and now guards the repaired defect that edited database defaults were answered from a stale cache. The writer make_cache is under contract as well: no exception escapes, the cache file is opened only under its lock, the recorded hash is live, empty or unchanged.",
     "Trusted: the assumed environment models in vf/extmodels.py (A-pickle, A-fs), assumed contracts for the hash of the live data and the "
     "full load (the uncached oracle), A-enc, A-smt.",
     "DESIGN.md 7 C18")
@@ -88,7 +88,7 @@ CLAIMED["C01"] = (
     "each get_* reader returns its field, and a lemma shows the fields are disjoint so readers invert create_flags; update_ivt writes exactly "
     "the four words (total length, flags, CRC/cert offset — 0 for plain images —, load address) and frames every other byte; clean_ivt zeroes "
     "exactly those words; Mbi_ExportMixinAppTrustZoneCertBlock.disassemble_image restores the application bytes before the certificate offset. "
-    "Whole-image export/parse per composition is a bounded check over the key-less compositions of the live database (known finding C01-KF1). Added: certificate-block-v1 signed images (RSA-2048 repository test keys, with and without relocation table) are decoded by hand in a bounded sweep - IVT total length / certificate offset words against independently computed positions, relocation entries, independent RSA signature verification. Added (round 3): MultipleImageTable.export - images padded to 4 then 16-byte entries then header; header marker/version/count/pointer; every entry's source range holds exactly its image and starts where the previous padded image ends - for 1..3 entries, image lengths of every residue mod 4, arbitrary contents and addresses.",
+    "Whole-image export/parse per composition is a bounded check over the key-less compositions of the live database (known finding C01-KF1). Added: certificate-block-v1 signed images (RSA-2048 repository test keys, with and without relocation table) are decoded by hand in a bounded sweep - IVT total length / certificate offset words against independently computed positions, relocation entries, independent RSA signature verification. Added (round 3): MultipleImageTable.export - images padded to 4 then 16-byte entries then header; header marker/version/count/pointer; every entry's source range holds exactly its image and starts where the previous padded image ends - for 1..3 entries, image lengths of every residue mod 4, arbitrary contents and addresses. Added (round 5): IVT word readers/writers used by the parser (update_crc_val_cert_offset frames everything but word 0x28; check_total_length rejects exactly images shorter than the IVT or than their own total-length word; get_flags / get_cert_block_offset).",
     "Trusted: A-enc, A-smt, A-struct. Not under contract: the other export mixins' collect_data/disassemble_image, relocation tables (design-time "
     "finding #16, not checked here), TrustZone/key-store contents, certificate blocks (C03), config/CLI front ends.",
     "DESIGN.md 7 C01")
@@ -125,7 +125,7 @@ CLAIMED["C13"] = (
     "the BEE protected window BeeProtectRegionBlock.update = [lowest FAC start, highest FAC end) for 0..3 regions in any order, plus "
     "is_inside_region. The statement's main clause (the hardware decrypts what SPSDK encrypts, locality, key-blob unwrap) is only a bounded "
     "check here: per-16-byte-block hardware models for OTFAD and BEE over seeded blobs / regions / bases (known finding C13-KF1 for bases that "
-    "are not 1 KiB aligned). IEE is not covered. Added: IeeKeyBlob.encrypt_image_ctr - every 16 bytes are AES-CTR'ed with the counter of their own absolute address (nonce word + address>>4 with 32-bit wrap, never carrying into the nonce), for 1..3 blocks, 128/256-bit keys, all keys/nonces/addresses; AES_CTR carries the counter-mode definition law (multi-block = per-block with the 128-bit counter advanced). Added (round 5): OTFAD KeyBlob.encrypt_image: every 16 bytes are encrypted with the counter block of their own system address when no counter is named (data anywhere inside the blob; 1-2 blocks) - this exposed and now guards the repaired defect that the counter started at the blob start; bounded single-blob sweep against the hardware model.",
+    "are not 1 KiB aligned). IEE is not covered. Added: IeeKeyBlob.encrypt_image_ctr - every 16 bytes are AES-CTR'ed with the counter of their own absolute address (nonce word + address>>4 with 32-bit wrap, never carrying into the nonce), for 1..3 blocks, 128/256-bit keys, all keys/nonces/addresses; AES_CTR carries the counter-mode definition law (multi-block = per-block with the 128-bit counter advanced). Added (round 5): OTFAD KeyBlob.encrypt_image: every 16 bytes are encrypted with the counter block of their own system address when no counter is named (data anywhere inside the blob; 1-2 blocks) - this exposed and now guards the repaired defect that the counter started at the blob start; bounded single-blob sweep against the hardware model. BEE FAC region record (start, END, level, reserved zeros; parse inverts export) and protect-region-block export layout (tags, version, FAC count, window, mode, lock options, counter byte-reversed, FAC records, zero fill).",
     "Trusted: AES as external (A-crypto-fun); encrypt_image loops (OTFAD/IEE/BEE), key-blob export/unwrap and KEK scrambling are NOT under contract; A-enc, A-smt.",
     "DESIGN.md 7 C13")
 CLAIMED["C15"] = (
@@ -144,7 +144,7 @@ CLAIMED["C14"] = (
     "three-segment layouts with every static/floating pattern after a static first segment, all offsets, lengths and alignments (1/4/1024) "
     "symbolic; the data obligations the theorem assumes (first segment static, static offsets strictly increasing, positive alignments) are "
     "checked exhaustively over every (family, memory type) of the live database. Export/parse of the merged image, gap filling, init_offset "
-    "selection and content-search parsing are NOT decided here (C16 gives the composition theorem they rest on). Added (bounded): every fixed-size segment class of every layout comes back whole from parse_binary (random payloads; FCB classes with a tagged payload). Added (round 3): BootableImage._update_segments (excluded iff fixed offset in front of the initial offset; floating segments never) and the init_offset setter (never negative, the closest fixed segment offset at or behind the request) for 3-segment layouts with any mix of fixed/floating segments.",
+    "selection and content-search parsing are NOT decided here (C16 gives the composition theorem they rest on). Added (bounded): every fixed-size segment class of every layout comes back whole from parse_binary (random payloads; FCB classes with a tagged payload). Added (round 3): BootableImage._update_segments (excluded iff fixed offset in front of the initial offset; floating segments never) and the init_offset setter (never negative, the closest fixed segment offset at or behind the request) for 3-segment layouts with any mix of fixed/floating segments. Added (round 5): BootableImage.__len__ = end of the last present segment under the placement theorem (three present segments, last one fixed or floating).",
     "Trusted: A-enc, A-smt; segments are abstract (offset rule, alignment, length). Layouts longer than three segments follow the same recursion "
     "(not instantiated).",
     "DESIGN.md 7 C14")
